@@ -79,7 +79,7 @@ func init() {
 			base := p("pool", 2, "klen", 1, "vlens", 2)
 			if tier == "quick" {
 				add("hashmap-k3-pre1", merge(base, p("k", 3, "pre", 1, "index", 3, "shards", 1)))
-				add("btree-k2-pre2-rot", merge(base, p("k", 2, "pre", 2, "index", 1, "shards", 2, "dfs_lo", 40, "dfs_hi", 130)))
+				add("btree-k2-pre2-rot", merge(base, p("k", 2, "pre", 2, "index", 1, "shards", 1, "dfs_lo", 40, "dfs_hi", 100)))
 				add("hashmap-k3-overflow", merge(base, p("k", 3, "pre", 0, "index", 3, "shards", 1, "vlens", 3, "vbig", 20, "dfs_lo", 110, "dfs_hi", 170)))
 			} else {
 				for idx := 1; idx <= 3; idx++ {
@@ -163,7 +163,11 @@ func init() {
 			}
 			if tier == "quick" {
 				for idx := 1; idx <= 3; idx++ {
-					add(fmt.Sprintf("%s-s2-fwd", idxName[idx]), p("calls", 3, "pool", 3, "klen", 1, "index", idx, "shards", 2, "prefix", 0, "latewrites", 0), 0)
+					calls := 2
+					if idx == 3 {
+						calls = 3
+					}
+					add(fmt.Sprintf("%s-s2-fwd", idxName[idx]), p("calls", calls, "pool", 3, "klen", 1, "index", idx, "shards", 2, "prefix", 0, "latewrites", 0), 0)
 				}
 				add("btree-s2-rev-late", p("calls", 3, "pool", 2, "klen", 1, "index", 1, "shards", 2, "reverse", 1, "latewrites", 1), 0)
 				add("hashmap-s3-prefix", p("calls", 2, "pool", 2, "klen", 2, "index", 3, "shards", 3, "prefix", 1), 0)
@@ -208,7 +212,7 @@ func init() {
 				add("btree-vs-skiplist", merge(base, p("k", 3, "ops", opPut|opDelete, "index", 1, "shards", 2, "b_index", 2, "b_shards", 3, "cmpfiles", 1)))
 				add("std-vs-mmap", merge(base, p("k", 3, "ops", opPut|opDelete|opRestart, "index", 3, "shards", 1, "b_io", 2, "vlens", 2)))
 				add("dfs-and-sync", merge(base, p("k", 3, "ops", opPut|opDelete, "index", 3, "shards", 1, "dfs_lo", 40, "dfs_hi", 120, "b_dfs_lo", 40, "b_dfs_hi", 120, "b_sync", 2, "vlens", 2)))
-				add("shards-16-vs-5000-conckeys", merge(base, p("k", 3, "ops", opPut|opDelete, "conckeys", 1, "index", 3, "shards", 16, "b_shards", 5000, "b_index", 1, "cmpfiles", 1)))
+				add("shards-16-vs-5000-conckeys", merge(base, p("k", 2, "ops", opPut|opDelete, "conckeys", 1, "index", 3, "shards", 16, "b_shards", 5000, "b_index", 1, "cmpfiles", 1)))
 				add("batch-hashmap-vs-skiplist", merge(base, p("k", 2, "ops", opPut|opBatch, "vlens", 2, "index", 3, "shards", 1, "b_index", 2)))
 			} else {
 				for a := 1; a <= 3; a++ {
@@ -465,7 +469,7 @@ func init() {
 			if tier == "thorough" {
 				k = 3
 			}
-			add("always-std", merge(base, p("k", k, "ops", opPut|opDelete|opSync|opRestart, "sync", syncAlways)))
+			add("always-std", merge(base, p("k", k+1, "ops", opPut|opDelete|opSync|opRestart, "sync", syncAlways)))
 			add("threshold-std", merge(base, p("k", k+1, "ops", opPut|opDelete, "sync", syncThreshold, "vlens", 3, "vbig", 25)))
 			add("nosync-std-batch", merge(base, p("k", k, "ops", opPut|opSync|opBatch|opRestart, "sync", syncNo, "bsync", 1, "vlens", 1)))
 			add("always-mmap", merge(base, p("k", k, "ops", opPut|opDelete|opSync|opRestart, "sync", syncAlways, "io", 1)))
@@ -665,10 +669,11 @@ func init() {
 				js = append(js, JobSpec{Name: name, Harness: "datatype", Func: "verifHarnessC19", Params: params, Scale: scaleDF(32)})
 			}
 			if tier == "quick" {
-				add("all-commands-1key-k3", p("k", 3, "keys", 1, "cmds", 65535))
+				add("all-commands-1key-k2", p("k", 2, "keys", 1, "cmds", 65535))
 				add("string-hash-del-type-2keys-k3", p("k", 3, "keys", 2, "cmds", cSet|cGet|cDel|cType|cHSet|cHGet|cHDel|cRestart))
 				add("list-restart-k4", p("k", 4, "keys", 1, "cmds", cLPush|cLPop|cDel|cRestart))
-				add("zset-set-btree-k3", p("k", 3, "keys", 1, "cmds", cZAdd|cZScore|cSAdd|cSRem|cSIsMember|cDel|cRestart, "index", 1))
+				add("zset-btree-k3", p("k", 3, "keys", 1, "cmds", cZAdd|cZScore|cDel|cRestart, "index", 1))
+				add("set-type-k3", p("k", 3, "keys", 1, "cmds", cSAdd|cSRem|cSIsMember|cDel|cType|cSet))
 			} else {
 				add("all-commands-1key-k4", p("k", 4, "keys", 1, "cmds", 65535))
 				add("all-commands-2keys-k3", p("k", 3, "keys", 2, "cmds", 65535))
@@ -682,7 +687,7 @@ func init() {
 			"scores from {-1.5, 0, 2} (symbolic floats are not supported by the engine)", "keys, fields/members and values are 1 symbolic byte; 'absent' replies are normalised (nil,nil / -1,nil / key-not-found)",
 			"an emptied hash/set/list/zset keeps its type (as the implementation does)"},
 		Bounds: map[string]string{
-			"quick":    "K=3 commands from all 15 commands + restart over 1 key; K=3 over 2 keys for strings/hashes/Del/Type; K=4 for lists; K=3 for zsets/sets on the B-tree index; 2 fields/members",
+			"quick":    "K=2 commands from all 15 commands + restart over 1 key; K=3 over 2 keys for strings/hashes/Del/Type; K=4 for lists; K=3 for zsets (B-tree index) and for sets+Type+Set; 2 fields/members",
 			"thorough": "K=4 all commands on 1 key, K=3 all commands on 2 keys, K=5 lists",
 		},
 		Outside: "keys >= 9 bytes / members >= 5 bytes (could collide with an internal key|version|field encoding); symbolic clock and TTL arithmetic; score formatting beyond three values",
